@@ -316,7 +316,7 @@ def r12_control_characters_rejected(ctx, rule):
     need = {chr(i) for i in range(0x20)}
     missing = sorted(need - rej)
     facts = {'rejected': sorted('U+%04X' % ord(c) for c in rej if len(c) == 1), 'unrecognised_guards': unknown}
-    if missing and unknown:
+    if missing and any(not u_.startswith('early accept') for u_ in unknown):
         ctx.unk(rule, qual, 'check_valid has guards that are not understood (%s); cannot tell whether %s are rejected'
                 % (unknown[:3], ['U+%04X' % ord(c) for c in missing][:6]), facts)
     elif missing:
